@@ -134,6 +134,9 @@ func (ft *fnTrans) callWrites(c *ssa.CallCommon) ([]string, bool) {
 		return nil, false
 	}
 	key, callee := ft.calleeKey(c)
+	if isOmKey(key) {
+		return ft.omWrites(key, c), false
+	}
 	if strings.HasPrefix(key, "sync/atomic.Add") {
 		return ft.rootComps(c.Args[0]), false
 	}
